@@ -11,7 +11,7 @@ RULE = ("four case kinds from one PRNG. mdoc (44%): texts from a grammar - heade
         "'+5', '1e-3', '0.00001' spellings that float() reads), "
         "ExposureDose, PriorRecordDose and 0..6 further keys with int / float (<=15 significant digits, leading/trailing zeros, '.5', '5.') / "
         "negative / exponent-form / multi-word text values, random blanks around '=' and at line ends; then an op sequence of sort_by_tilt (reset_z_value both ways, "
-        "also on FrameSet mdocs = class of C17-K3) and "
+        "also on FrameSet mdocs, where it renumbers the FrameSet values since fix 6061ac6) and "
         "remove_images (any index subset incl. negative indices, kept_only both ways), write(removed both ways), re-read; keywords OMITTED in ~40% of the calls whose "
         "value is the documented default; 6% malformed texts the "
         "reader must refuse; 10% texts of the shapes the strict model does not describe: duplicate header keys and float() tilt spellings are FOLLOWED by the extended "
@@ -182,7 +182,7 @@ DOC = dict(prefixes=[("[ZValue", "ZValue"), ("[FrameSet", "FrameSet")], kv=["", 
                          ["['tomo_x','tomo_y','tomo_z']", "np.repeat(ioutils.dimensions_load(tomo_dim).values,ioutils.tlt_load(tlt_file).shape[0],axis=0)"],
                          ["z_shift", "ioutils.z_shift_load(z_shift).values[0][0]"], ["voltage", "voltage"], ["amp_contrast", "amp_contrast"], ["cs", "cs"]],
            gctf=dict(columns=["rlnDefocusU", "rlnDefocusV", "rlnDefocusAngle", "rlnPhaseShift"], phase="rlnPhaseShift", lo=0, hi=2),
-           dtype="np.float32", reset=["ZValue", False], indices=[True, True],
+           dtype="np.float32", reset=["ZValue", True], indices=[True, True],
            defaults=dict(write_removed=False, write_overwrite=False, remove_kept_only=True, sort_reset=False, mdoc_section_id="ZValue",
                          script_from1=True, defocus_file_type="gctf", sg_z_shift="0.0", sg_ctf_type="gctf", sg_voltage="300.0", sg_amp="0.07", sg_cs="2.7",
                          batch_z_shift="0.0", batch_ctf_type="gctf", batch_voltage="300.0", batch_amp="0.07", batch_cs="2.7", sg_drop_nan=True))
@@ -952,7 +952,7 @@ def gen_mdoc(rng, tier):
     if not case["write_removed"] and rng.random() < 0.4:
         case["write_removed"] = None                # write(path, overwrite=True) without `removed`
     if "[FrameSet" in text and rng.random() < 0.5 and n_img >= 2:
-        # audit item 4: FrameSet + sort_by_tilt(reset_z_value=True) (class of C17-K3)
+        # audit item 4: FrameSet + sort_by_tilt(reset_z_value=True) (regression of fix 6061ac6, formerly C17-K3)
         case["steps"] = case["steps"][:2] + [dict(k="sort", reset=True)] + case["steps"][2:]
     if rng.random() < 0.1:
         return gen_mdoc_odd(rng, text, n_img)
@@ -1279,11 +1279,11 @@ def judge_mdoc(case, obs, resp):
                 out.append(dict(kind="corr", clause="ops-vs-model", detail=d))
         resets = any(s["k"] == "sort" and s.get("reset") for s in case["steps"])
         # SPEC: only the order or the removed flag changes
-        # class of C17-K3: reset_z_value=True on an object whose section column is not "ZValue": the code adds a column ZValue = k to the
+        # regression of fix 6061ac6 (formerly C17-K3): reset_z_value=True on an object whose section column is not "ZValue": the old code added a column ZValue = k to the
         # table (one more entry in every image, written as `ZValue = k` inside every section) - reported ONCE, under its own clause, and the
         # column is then set aside so that the remaining clauses are still judged
         if resets and P["sid"] != "ZValue" and A["cols"] == P["cols"] + ["ZValue"] and all(len(r["cells"]) == len(P["cols"]) + 1 for r in A["rows"]):
-            out.append(dict(kind="spec", clause="sort-reset-adds-entry", k3=True,
+            out.append(dict(kind="spec", clause="sort-reset-adds-entry",
                             detail=f"sort_by_tilt(reset_z_value=True) on a {P['sid']} mdoc: sorting must change only the order, but every image gained an entry "
                                    f"'ZValue = k' (columns {P['cols']} became {A['cols']}) while the {P['sid']} values were not renumbered"))
             A = dict(A, cols=A["cols"][:-1], rows=[dict(r, cells=r["cells"][:-1]) for r in A["rows"]])
@@ -2379,7 +2379,7 @@ def _judge_ops(P, A, steps, mod_after, what):
     if mod_after is None:
         if exp_removed is not None:
             out.append(dict(kind="corr", clause="ops-model-raises", detail=what))
-    elif not any(s.get("reset") for s in steps if s["k"] == "sort") or P["sid"] == "ZValue":
+    else:
         d = _mdoc_eq(A, mod_after)
         if d:
             out.append(dict(kind="corr", clause="ops-vs-model", detail=f"{what}: {d}"))
@@ -2597,8 +2597,6 @@ def judge(case, obs, resps):
 def classify(case, obs, finding):
     if finding.get("clause") == "mdoc-roundtrip" and finding.get("k1"):
         return "C17-K1"
-    if finding.get("clause") == "sort-reset-adds-entry" and finding.get("k3"):
-        return "C17-K3"
     if finding.get("clause") == "wedge-raises" and finding.get("k2"):
         return "C17-K2"
     return None
@@ -2812,7 +2810,7 @@ LEVEL_TEXT = ("Lean 4 theorems about an executable character-level model of Mdoc
               "Angstrom->micron factors, mean expression, wedge column list and assignments, STAR specifier, groupby/agg of sg->em, type chains and extension / "
               "file-type dispatch tables of tlt_load, total_dose_load, defocus_load) and by a differential run of the real functions against the model")
 LEVEL_NOTE = ("trusted: Lean kernel; translator anchors; harness canonicalisation of pandas cells; Python float repr of <=15-digit decimals (probed); pandas sort on distinct keys; "
-              "numeric loader outputs are compared with rel. tolerance 2e-6 (float32) / 1e-9 (float64); Starfile I/O belongs to C02; open findings C17-K1 (exponent-form floats "
-              "re-read as text) and C17-K3 (reset_z_value on a FrameSet mdoc adds a ZValue entry to every image)")
+              "numeric loader outputs are compared with rel. tolerance 2e-6 (float32) / 1e-9 (float64); Starfile I/O belongs to C02; open finding C17-K1 (exponent-form floats "
+              "re-read as text)")
 TECHNIQUE = "Lean 4 proof (list induction over lines/characters, merge-sort permutation, zip/flatten indexing, field identities) + regenerated constants + differential correspondence"
 DESIGN_REF = "DESIGN.md section 4, C17"
